@@ -57,6 +57,42 @@ def explore(ctx, depth):
                 exp = call(lambda: tr(s, byname['octave'], direction=d))
                 if r2 != exp:
                     ctx.fail({**inp, 'clause': 'P4 then P5'}, 'a fourth followed by a fifth is not an octave', impl=r2, expected=exp)
+    # ---- calling conventions and the other notation: the same grid points through positional arguments in the documented order
+    # (pitch, interval, input_format, output_format, direction), and with the pitch written in American notation (letter, '#', octave number;
+    # octave 0 included) - the arithmetic is on the pitch, not on how it is written or how the call is spelled
+    def kern_to_american(k):
+        body = k.rstrip('#-')
+        acc = k[len(body):]
+        o = 3 + len(body) if body[0].islower() else 4 - len(body)
+        if len(acc) > 1:
+            return None            # the American writer's double accidentals are C16's business
+        return body[0].upper() + {'': '', '#': '#', '-': 'b'}[acc] + str(o)
+    conv = 0
+    for k, ((l, a, o, v, n, d), r) in enumerate(zip(cases, resp)):
+        if r['spec'] is None or 'ok' not in r['spec'] or k % 5 != (l + o) % 5:
+            continue
+        s = spell(l, a, o)
+        inp = {'pitch': s, 'interval': n, 'direction': d}
+        conv += 1
+        got = call(lambda: tr(s, v, 'kern', 'kern', d))
+        ctx.seen({**inp, 'clause': 'positional call'}, n != 'P1')
+        if got != r['spec']:
+            ctx.fail({**inp, 'clause': 'positional call transpose(pitch, interval, input_format, output_format, direction)'},
+                     'a call with positional arguments in the documented order is not the transposition', impl=got, expected=r['spec'])
+        if a in (0, 1) and 0 <= o <= 9:
+            am = LETTERS[l].upper() + ('#' if a == 1 else '') + str(o)
+            got = call(lambda: tr(am, v, input_format='american', output_format='kern', direction=d))
+            ctx.seen({**inp, 'clause': 'American notation in', 'american': am}, True)
+            if got != r['spec']:
+                ctx.fail({**inp, 'clause': 'American notation in', 'american': am}, 'the same pitch written in American notation transposes differently',
+                         impl=got, expected=r['spec'])
+            exp_am = kern_to_american(r['spec']['ok'])
+            if exp_am is not None:
+                got = call(lambda: tr(am, v, 'american', 'american', d))
+                if got != {'ok': exp_am}:
+                    ctx.fail({**inp, 'clause': 'American notation in and out', 'american': am}, 'the transposed pitch written in American notation is not the transposed pitch',
+                             impl=got, expected={'ok': exp_am})
+    ctx.count('calling_convention_cases', conv)
     ctx.count('cases', len(cases))
     ctx.count('spec_unspellable_with_two_accidentals', unspellable)
     # ---- pitch OBJECTS that are reused: one AgnosticPitch swept through octaves / names with the public setters and transposed after each edit;
